@@ -177,7 +177,7 @@ def register(R):
         }
 
     R.contract(
-        f'{SWS}.acquire', props=['C12', 'C11', 'C10'], self_type=SH, old_at='acquire', top=True,
+        f'{SWS}.acquire', props=['C12', 'C11', 'C10', 'C04'], self_type=SH, old_at='acquire', top=True,
         params=dict(tag=ExtT('tag'), blocking=Bool),
         ensures=acquire_post,
         raises={f'{UT}:NoResourcesAvailable': lambda c: {
@@ -185,7 +185,11 @@ def register(R):
             'state_unchanged': all_unchanged(c)}},
         raise_when={f'{UT}:NoResourcesAvailable': lambda c: z3.Not(b2z(c.a_blocking))},
         returns=Int,
-        loops={0: LoopSpec(invariant=lambda l: {}, havoc_heap=_wait_havoc)},
+        # a blocked acquire gives the lock up while it waits: every round of the wait loop goes through Condition.wait
+        # (spinning on `_count` with the lock held would lock every releaser out for good -- C04)
+        loops={0: LoopSpec(invariant=lambda l: {}, havoc_heap=_wait_havoc, iteration_checks=lambda l0, l1, evs: {
+            'each_round_of_the_wait_loop_releases_the_lock_in_condition_wait': (z3.BoolVal(any(
+                e.kind == 'ext' and e.name == 'condition.wait' for e in evs)), ['C04', 'C12'])})},
         twins=lambda c: {'capacity_not_consumed': c.newf('_count') == c.oldf('_count')},
     )
 
